@@ -260,10 +260,22 @@ def open_iter(ds, split: str, iface: str, **opts):
     if iface == "tfdata":
         opts.setdefault("batch_size", 0)
         tfds = ds.as_tfdataset(split, **opts)
+        if opts["batch_size"] > 0:
+            return _unbatch(iter(tfds.as_numpy_iterator()))
         return iter(tfds.as_numpy_iterator())
     if iface == "async":
         return _AsyncBridge(ds.as_numpy_iterator_async(split=split, **opts))
     raise ValueError(iface)
+
+
+def _unbatch(batches):
+    """Flatten batched tf.data elements (dict of arrays with a leading batch
+    axis) back into single examples, in order."""
+    for batch in batches:
+        keys = list(batch)
+        n = len(batch[keys[0]])
+        for i in range(n):
+            yield {k: batch[k][i] for k in keys}
 
 
 class _AsyncBridge:
